@@ -311,11 +311,15 @@ func vpC02Entry(k int, id string) Item {
 		return &Object{}
 	case 6:
 		return &Link{Type: MentionType, Href: IRI(id)}
+	case 8: // held by value
+		return Place{ID: IRI(id), Type: PlaceType}
+	case 9:
+		return Object{ID: IRI(id), Type: NoteType}
 	}
 	return (*Activity)(nil)
 }
 
-func vpC02Written(k int) bool { return k == 0 || k == 1 || k == 6 }
+func vpC02Written(k int) bool { return k == 0 || k == 1 || k == 6 || k == 8 || k == 9 }
 
 func vpC02Lists(n int) {
 	hi := vpChoice(len(vpC02ListHolders))
@@ -323,7 +327,7 @@ func vpC02Lists(n int) {
 	var list ItemCollection
 	var want []string
 	for i := 0; i < n; i++ {
-		k := vpChoice(8)
+		k := vpChoice(10)
 		id := "https://h.ex/" + string([]byte{'a' + byte(i), vpAlnum()})
 		list = append(list, vpC02Entry(k, id))
 		if vpC02Written(k) {
